@@ -311,6 +311,7 @@ def _get_prop(obj, name):
 def same_state(a, b, ignore=()):
     import enum
     ign = set(ignore)
+    ign |= {k.lstrip("_") for k in ign}
     seen = set()
 
     def rec(x, y):
